@@ -176,6 +176,32 @@ def regimes_of(r, reg):
         reg["unlimited"] += 1
     if any(t.get("u") for t in c.get("tags", [])) and '"tag"' in json.dumps(c["query"]):
         reg["query_with_uncertain_tags"] += 1
+    refs = o.get("filerefs") or []
+    if len(set(refs)) > 1:
+        reg["files_with_different_reference_times"] += 1
+        if max(refs) - min(refs) >= 3600:
+            reg["reference_times_an_hour_apart"] += 1
+    if o.get("subquery"):
+        reg["subquery"] += 1
+        if len(set(refs)) > 1:
+            reg["subquery_and_different_reference_times"] += 1
+        if o.get("subcross"):
+            reg["subquery_match_witnessed_only_from_another_file"] += 1
+        q0 = json.dumps(c["query"])
+        if re.search(r'"(lov|hiv)": "sub:[fl]time"', q0):
+            reg["subquery_time_relation"] += 1
+            if o.get("subcross") and len(set(refs)) > 1:
+                reg["subquery_time_relation_across_files_with_different_reference_times"] += 1
+        if re.search(r'"(lov|hiv)": "sub:(id|cport|sport|cbytes|sbytes)"', q0):
+            reg["subquery_number_relation"] += 1
+        if '"v": "sub:' in q0:
+            reg["subquery_host_relation"] += 1
+        if "@sub:protocol@" in q0:
+            reg["subquery_protocol_relation"] += 1
+        if '"sq": "sub"' in q0:
+            reg["subquery_with_own_filters"] += 1
+        if o.get("matches"):
+            reg["subquery_nonempty_result"] += 1
     if len(c.get("sort", [])) >= 2:
         reg["secondary_sort_keys"] += 1
     if not c.get("sort"):
@@ -219,7 +245,9 @@ def run(tier, seed, replay=None):
         "query filters are abstracted in the Lean model as a predicate per stored stream version; lookups are assumed "
         "to be supersets of the matches (checked only differentially)",
         "limit = 0 is only used with page 0 (callers compute skip = page*limit)",
-        "sub-queries, grouping, variables in filters, relative times and converter-specific data filters are not generated",
+        "sub-queries: only ONE named sub-query with number/time/protocol/host relations to the main stream (no data variables, no tags "
+        "inside the sub-query, no grouping); queries the engine rejects as not (fully) supported are an outcome `rejected`, not compared",
+        "grouping, relative times and converter-specific data filters are not generated",
         "per index file at most one host group per address family (no more than 6 distinct hosts)"]
 
     binpath, blog = pk.go_build("c02")
@@ -247,7 +275,7 @@ def run(tier, seed, replay=None):
         cases.append(d["case"] if "case" in d else d)
         names.append("corpus:" + os.path.basename(p))
     ncorpus = len(cases)
-    n = 10000 if not thorough else 150000
+    n = 8000 if not thorough else 150000
     gen = tie.gen(seed, n - n // 6) + tie.gen(seed * 7919 + 13, n // 6, ["-wide"])
     cases += gen
     names += ["seed:%d#%d" % (seed, i) for i in range(len(gen))]
@@ -344,7 +372,12 @@ def run(tier, seed, replay=None):
                 "domains (ports/times/bytes/hosts tie), spread over 1-4 real index files in random insertion order with "
                 "shadowed older versions; query ASTs of depth <= 3 over id/port/bytes/host/protocol/time/tag/data terms with "
                 "lists, ranges, AND/OR/NOT (normal form bounded to 24 conjuncts); 0-3 sort keys; limit in {0,1,2,3,100}; "
-                "page 0-2; id restriction; tag tables with uncertain bits and definitions. A case counts as non-trivial "
+                "page 0-2; id restriction; tag tables with uncertain bits and definitions; in 1/4 of the cases a sub-query: filters "
+                "`@sub:key:value` of one named sub-query plus main terms relating to its stream (`ftime:\"@sub:ltime@+7s:\"`, `cport:@sub:sport@`, "
+                "`protocol:@sub:protocol@`, `chost:@sub:shost@/24`, negated / ranges / offsets) with the plain meaning 'some visible stream "
+                "matching the sub-query makes the term hold'; in 1/3 of the multi-file cases whole files are shifted by 7 s or 1 h so that "
+                "index files have different reference times. The Lean engine model covers sub-query cases too (the filter predicate per "
+                "stored version is computed by the oracle). A case counts as non-trivial "
                 "when the result is non-empty and the query is selective or the page cuts the match list; distinct by "
                 "(query text, limit, skip, file contents in scan order, id restriction)",
         "samples": [sample] if sample else [],
